@@ -95,6 +95,78 @@ def annotate_variants(rec, texts):
         yield "subname:all-equal", dict(rec, subs=subs), {}
 
 
+def _is_form(t):
+    return isinstance(t, tuple) and len(t) > 0 and isinstance(t[0], str) and t[0][:1].isupper()
+
+
+def _form_paths(e, path=()):
+    """paths (index tuples) of every recipe form below e that is an expression or statement of its own"""
+    out = []
+    if _is_form(e):
+        if e[0] not in ("Ref", "PRef"):
+            out.append(path)
+        for i, c in enumerate(e[1:], 1):
+            if isinstance(c, (tuple, list)):
+                out += _form_paths(c, path + (i,))
+    elif isinstance(e, (tuple, list)):
+        for i, c in enumerate(e):
+            if isinstance(c, (tuple, list)):
+                out += _form_paths(c, path + (i,))
+    return out
+
+
+def _replace_at(e, path, fn):
+    if not path:
+        return fn(e)
+    lst = list(e)
+    lst[path[0]] = _replace_at(e[path[0]], path[1:], fn)
+    return tuple(lst) if isinstance(e, tuple) else lst
+
+
+def node_variants(rec, salt=0):
+    """one annotation wrapped around EVERY expression / statement node of the program (main routine and routine
+    bodies): a comment at every node, an empty comment, a nonce and a pragma at every other node (rotating)"""
+    targets = [("main", None, rec["main"])] + [("sub", n, sd["body"]) for n, sd in rec.get("subs", {}).items()]
+    k = 0
+    for where, sname, body in targets:
+        for path in _form_paths(body):
+            if where == "main" and not path:
+                continue        # (the whole program is annotate_variants' business)
+            k += 1
+            kinds = [("comment", lambda x: ("Comment", "note", x), {})]
+            if (k + salt) % 2 == 0:
+                kinds.append(("comment-empty", lambda x: ("Comment", "", x), {}))
+                kinds.append(("pragma", lambda x: ("Pragma", x, ">=0.0.1"), {}))
+            else:
+                kinds.append(("nonce", lambda x: ("Nonce", "base16", "0a0b", x), {}))
+                kinds.append(("comment2", lambda x: ("Comment", "a // b", ("Comment", "c", x)), {}))
+            node = body
+            for i in path:
+                node = node[i]
+            lead = node
+            while _is_form(lead) and lead[0] == "Seq" and len(lead) > 1:
+                lead = lead[1]
+            for kn, fn, o in kinds:
+                o = dict(o, annot_leads_with=lead[0] if _is_form(lead) else None)
+                if where == "main":
+                    rec2 = dict(rec, main=_replace_at(body, path, fn))
+                else:
+                    subs = dict(rec["subs"])
+                    subs[sname] = dict(subs[sname], body=_replace_at(body, path, fn))
+                    rec2 = dict(rec, subs=subs)
+                yield "node-%s:%s%s" % (kn, (sname + ".") if sname else "", ".".join(map(str, path))), rec2, dict(o, inner_nonce=(kn == "nonce"))
+
+
+def node_base_recipes(mode, v):
+    from ..recipe import gen_opt
+    out = [x for x in gen.control_family(mode, v, False) if x[0].split(":")[-1] in ("break", "continue", "if-break", "if-continue", "ifelse-break-continue")]
+    out += [x for x in gen_opt.opt_family(mode, v, False)
+            if x[0].split(":")[1] in ("split1", "split2", "armfirst1", "armfirst2", "loop", "sub") and len(x[0].split(":")[2]) <= 6]
+    if v >= 4:
+        out += [x for x in gen_subs.sub_family(mode, v, False) if x[0] in ("sub:fact", "sub:locals1", "sub:byref-inc", "sub:mutual-u-none")]
+    return out
+
+
 def base_recipes(mode, v):
     e = Env(mode, v)
     out = []
@@ -121,6 +193,19 @@ def build_jobs(t, sd, solver_texts):
                 if "nonce_prefix_hex" in o2:
                     j["nonce_prefix"] = {"hex": o2["nonce_prefix_hex"]}
                 j.update(opts)
+                jobs.append(j)
+    # one annotation around every node of programs with loop exits / variable traffic, with the default options of the
+    # version (from version 9 the slot optimiser runs) and with the optimiser forced on / off
+    for vi, (v, opt) in enumerate([(6, None), (10, None), (8, {"scratch_slots": True})] if not thorough else
+                                  [(3, None), (5, None), (6, None), (8, None), (9, None), (10, None), (7, {"scratch_slots": True}), (10, {"scratch_slots": False})]):
+        for ri, (name, rec, opts) in enumerate(node_base_recipes("A", v)):
+            for (an, rec2, o2) in node_variants(rec, salt=ri + vi):
+                j = {"id": "%s+%s@v%d%s" % (name, an, v, "" if opt is None else "/" + "".join(k[0] for k, x in sorted(opt.items()) if x) + "o"),
+                     "family": "annot-node:" + an.split(":")[0], "rec": to_json(rec), "recB": to_json(rec2),
+                     "A": {"version": v, "optimize": opt}, "B": {"version": v, "optimize": opt}, "mode": "A",
+                     "loop_k": 2, "call_depth": 3, "lens": (0, 1), "compare": [], "stream_compare": not o2.get("inner_nonce")}
+                j.update(opts)
+                j["annot_leads_with"] = o2.get("annot_leads_with")
                 jobs.append(j)
     for j in jobs[:: max(1, len(jobs) // 5)]:
         j["want_sample"] = True
@@ -296,6 +381,24 @@ def main():
 
 def features_fn(v):
     fs = set()
+    job = v.get("job") or {}
+    if v.get("kind") == "stream":
+        # input-side features of the two known ways an annotation changes the instruction stream without changing behaviour
+        if job.get("annot_leads_with") in ("Break", "Continue"):
+            fs.add("annotation-on-loop-exit")
+        a = v.get("A") or {}
+        opt_on = (a.get("optimize") or {}).get("scratch_slots", a.get("version", 0) >= 9)
+        if opt_on and v.get("recipe") and v.get("recipeB"):
+            try:
+                from ..diffjob import compile_side
+                from ..teal.parse import parse
+                off = dict(a, optimize=dict(a.get("optimize") or {}, scratch_slots=False))
+                ta, sa, _ = compile_side(from_json(v["recipe"]), off)
+                tb, sb, _ = compile_side(from_json(v["recipeB"]), off)
+                if sa == "ok" and sb == "ok" and not stream_difference(parse(ta), parse(tb), None):
+                    fs.add("annotation-between-store-and-load-with-slot-optimisation")
+            except Exception:  # noqa
+                pass
     rb = v.get("recipeB")
     if rb:
         r = from_json(rb)
